@@ -330,6 +330,10 @@ func runC09(c *Ctx, i int, r *rand.Rand) {
 				case strings.Contains(mf, "ends inside a frame") && s.Req.Form.Enveloped():
 					// bytes of a frame already forwarded cannot be taken back on a streaming response
 					c.Count("partial-frame-already-forwarded")
+				case f.kind == "resp-length-lie" && s.Req.Form.Enveloped():
+					// behind a frame whose length lies, the re-framing path takes the following bytes at face
+					// value (it never looks inside payloads): what it forwarded before noticing cannot be taken back
+					c.Count("misframed-bytes-already-forwarded")
 				case clientInBand && !f.reqFault:
 					// in-band terminated forms: the end frame lands behind a partially forwarded frame
 					c.Count("in-band-response-cut-short")
